@@ -706,6 +706,10 @@ func (vc *VC) loopModifies(st *State, li *loopInfo) map[string]*modInfo {
 				var base Term
 				if inv {
 					base = vc.val(st, x.Map).T
+				} else if t, ok := vc.stableFieldLoad(st, x.Map, li); ok {
+					// the map is re-read from a field of a loop-invariant object in every iteration, and nothing in the
+					// loop can write that field: it is the same map throughout
+					inv, base = true, t
 				}
 				if rootFresh(x.Map) {
 					continue
@@ -770,6 +774,61 @@ func (vc *VC) loopModifies(st *State, li *loopInfo) map[string]*modInfo {
 		}
 	}
 	return out
+}
+
+// stableFieldLoad recognises v = *(&obj.f) inside a loop where obj is defined outside the loop and the loop contains
+// neither a store to field f of that struct type nor any call other than builtins; it returns the field's value.
+func (vc *VC) stableFieldLoad(st *State, v ssa.Value, li *loopInfo) (Term, bool) {
+	u, ok := v.(*ssa.UnOp)
+	if !ok || u.Op != token.MUL {
+		return "", false
+	}
+	fa, ok := u.X.(*ssa.FieldAddr)
+	if !ok {
+		return "", false
+	}
+	if ins, ok := fa.X.(ssa.Instruction); ok && li.blocks[ins.Block()] {
+		return "", false
+	}
+	obj, ok := st.vals[fa.X]
+	if !ok || obj.T == "" {
+		return "", false
+	}
+	pt, ok := types.Unalias(fa.X.Type()).Underlying().(*types.Pointer)
+	if !ok {
+		return "", false
+	}
+	stt, ok := types.Unalias(pt.Elem()).Underlying().(*types.Struct)
+	if !ok {
+		return "", false
+	}
+	f := stt.Field(fa.Field)
+	arr, sub := fieldArr(pt.Elem(), f)
+	if sub {
+		return "", false
+	}
+	for b := range li.blocks {
+		for _, ins := range b.Instrs {
+			switch y := ins.(type) {
+			case *ssa.Store:
+				if fa2, ok := y.Addr.(*ssa.FieldAddr); ok {
+					if pt2, ok := types.Unalias(fa2.X.Type()).Underlying().(*types.Pointer); ok {
+						if st2, ok := types.Unalias(pt2.Elem()).Underlying().(*types.Struct); ok {
+							if a2, _ := fieldArr(pt2.Elem(), st2.Field(fa2.Field)); a2 == arr {
+								return "", false
+							}
+						}
+					}
+				}
+			case ssa.CallInstruction:
+				if _, isB := y.Common().Value.(*ssa.Builtin); !isB {
+					return "", false
+				}
+			}
+		}
+	}
+	s := sortOf(f.Type())
+	return app("select", vc.hget(st.heap, arr, arrSort(s)), obj.T), true
 }
 
 func (vc *VC) modOfAddr(st *State, addr ssa.Value, inLoop func(ssa.Value) bool, rootFresh func(ssa.Value) bool, add func(string, Sort, Term, bool, bool), instr ssa.Instruction) {
